@@ -21,4 +21,12 @@ let () =
       ((match check_validity (z_of_hex cur) (z_of_hex ct) (z_of_hex ex) (z_of_hex kct) (n_of_hex ha) with
         | Valid -> "1" | _ -> "0"), out) | _ -> bad ());
   register "aead_nonce" (function [iv; c; out] -> (tb (chunk_nonce_impl (bt iv) (nat_of_int (int_of_string c))), out) | _ -> bad ());
+  (* fields of a parsed signature object: path = sigparse | message | keyblock | prvblock *)
+  register "sigfields" (function [path; body; out] ->
+      let kc = (path = "keyblock" || path = "prvblock") in
+      ((match sig_body_fields kc (bt body) with
+        | None -> "none"
+        | Some f -> String.concat ":" [hex_of_n f.sf_version; hex_of_n f.sf_type; hex_of_n f.sf_pkalgo; hex_of_n f.sf_hashalgo;
+                                       hex_of_n f.sf_created; hex_of_n f.sf_sigexp; hex_of_n f.sf_keyexp; tb f.sf_flags; tb f.sf_issuer]), out)
+    | _ -> bad ());
   main ()
